@@ -9,9 +9,10 @@ import os, sys
 
 HERE = os.path.dirname(os.path.dirname(os.path.abspath(__file__)))
 sys.path.insert(0, HERE)
-deps = os.path.join(HERE, ".deps")
-if os.path.isdir(deps):
-    sys.path.insert(0, deps)
+for deps in (os.path.join(HERE, ".deps"), "/verif/.deps"):
+    if os.path.isdir(deps):
+        sys.path.insert(0, deps)
+        break
 import atheris  # noqa: E402
 
 from vlib import driver, watchdog  # noqa: E402
